@@ -517,6 +517,9 @@ pub(crate) struct DrawState {
     pub(crate) alignment: MultiProgressAlignment,
     /// The number of blank lines the last draw put above the bars (bottom alignment only)
     pub(crate) padding: VisualLines,
+    /// The last draw stopped at the terminal height and left the cursor behind the text of the
+    /// last bar line it painted instead of at the right edge
+    unfinished_row: bool,
 }
 
 impl DrawState {
@@ -550,6 +553,12 @@ impl DrawState {
             term.move_cursor_up(n.saturating_sub(1))?;
         }
 
+        if self.unfinished_row && *bar_count == VisualLines::default() {
+            // The rows of the last draw all stay on screen as static text (nothing was cleared
+            // above) and the cursor still sits behind the last of them: start on a fresh row
+            term.write_line("")?;
+        }
+
         let term_width = term.width() as usize;
 
         // Here we calculate the terminal vertical real estate that the bars of the state require
@@ -576,6 +585,7 @@ impl DrawState {
         // full height exceeds the terminal height.
         let mut real_height = VisualLines::default();
         let mut ends_with_text = false;
+        let mut unfinished_row = false;
 
         for (idx, line) in self.lines.iter().enumerate() {
             let line_height = line.wrapped_height(term_width);
@@ -584,6 +594,8 @@ impl DrawState {
             if matches!(line, LineType::Bar(_)) {
                 // Stop here if printing this bar would exceed the terminal height
                 if real_height.saturating_add(line_height) > term.height().into() {
+                    // The bar line painted before this one, if any, got no filler
+                    unfinished_row = real_height != VisualLines::default();
                     break;
                 }
 
@@ -635,6 +647,7 @@ impl DrawState {
         term.flush()?;
         *bar_count = real_height + shift;
         self.padding = shift;
+        self.unfinished_row = unfinished_row;
 
         Ok(())
     }
